@@ -301,6 +301,9 @@ fn run(ctx: &RunCtx) -> Report {
     let mut capacity_limited = 0u64;
     // last id seen in a node's tables for an address
     let mut slot_hist: BTreeMap<(HostId, std::net::Ipv4Addr), Vec<(u64, BTreeSet<Id>)>> = BTreeMap::new();
+    // (e) last time each node sent a find_node for its own id
+    let mut last_refresh: BTreeMap<HostId, u64> = BTreeMap::new();
+    let mut refresh_checks = 0u64;
     let mut t = sim.now();
     'outer: while t < t_end {
         t += step;
@@ -343,6 +346,10 @@ fn run(ctx: &RunCtx) -> Report {
             for d in &tr[last_scan..] {
                 let Some(k) = Krpc::parse(&d.bytes) else { continue };
                 if let (Some(x), Some(q)) = (d.from_host, k.query_name()) {
+                    // a refresh (or bootstrap) lookup: find_node for the sender's own id
+                    if q == "find_node" && d.dup_of.is_none() && k.target().is_some() && k.target() == k.id() {
+                        last_refresh.insert(x, d.t_send);
+                    }
                     if matches!(q, "find_node" | "get" | "get_peers" | "get_signed_peers" | "ping") {
                         pending.insert((x, d.dst, k.tid_u32().unwrap_or(0)), d.t_send);
                     }
@@ -501,6 +508,24 @@ fn run(ctx: &RunCtx) -> Report {
                     h.remove(0);
                 }
             }
+            // (e) the table is refreshed every 15 minutes: a node with a bootstrap list that has been up
+            //     (and not frozen) for a whole window has sent a find_node for its own id within it
+            {
+                let window = ((MIN15 + 90 * SEC) as f64 * skew) as u64;
+                let frozen = suspend_windows.iter().any(|(v, a, e)| v == x && *e + 60 * SEC + window > t && *a < t);
+                if !s.bootstrap.is_empty() && !frozen && t >= born[x] + window + 60 * SEC {
+                    refresh_checks += 1;
+                    let last = last_refresh.get(x).copied().unwrap_or(0);
+                    if last + window < t {
+                        report.violate(
+                            "healthy-table",
+                            "no-refresh-lookup-for-15-minutes",
+                            format!("at t={}s node {} (up since t={}s) has not sent a find_node for its own id for {:.1} min: the 15-minute table refresh did not happen", t / SEC, sim.node_addr(*x), born[x] / SEC, (t - last) as f64 / (60.0 * SEC as f64)),
+                        );
+                        break 'outer;
+                    }
+                }
+            }
             // (b) dead incarnations disappear within 15 + 5 + 1 minutes
             for (p, ids) in &old_ids {
                 for (oid, since) in ids {
@@ -570,6 +595,7 @@ fn run(ctx: &RunCtx) -> Report {
         let _ = &by_addr;
     }
     report.probe("answered_within_window_checks", answered_within_window_checks);
+    report.probe("refresh_every_15_minutes_checks", refresh_checks);
     report.probe("virtual_hours", hours);
     if slow_links {
         report.probe("slow_link_runs", 1);
